@@ -258,7 +258,11 @@ fn scale_definition(spec: &Spec, len: usize, at: &std::collections::BTreeSet<usi
             let mut v = build::<f64>(spec);
             let w_ema = if spec.kind == Kind::Ema { 2.0 } else if spec.kind == Kind::EmaAlpha { spec.p[0] } else { 0.0 } / (n as f64 + 1.0);
             let (mut e, mut lo_all, mut hi_all) = (0.0f64, f64::MAX, f64::MIN);
+            let started = std::time::Instant::now();
             for i in 0..len {
+                if i % 4096 == 4095 && started.elapsed().as_secs() > SCALE_BUDGET_S {
+                    return None; // budget (see ref_drivers_sparse)
+                }
                 v.update(hist[i]);
                 e = if i == 0 { hist[0] } else { w_ema * hist[i] + (1.0 - w_ema) * e };
                 lo_all = lo_all.min(hist[i]);
@@ -303,6 +307,37 @@ fn scale_definition(spec: &Spec, len: usize, at: &std::collections::BTreeSet<usi
             }
         }
     }
+}
+
+/// Ema with weight exactly 1 (window 1 with the default alpha; with_alpha(N, N+1)) is the identity on
+/// its input: e_t = 1*x_t + 0*e_(t-1). Over an alphabet that mixes the units 1 and 2^-70 the identity
+/// must hold bit for bit - a recursion written as e + w*(x - e) absorbs a small x next to a large e.
+fn ema_unit_weight(spec: &Spec, depth: usize, st: &mut Stats, sink: &Sink) {
+    let t = 2f64.powi(-70);
+    let alpha = [0.0, 1.0, -1.0, t, -t, 3.0 * t];
+    let Some(root) = build_or_report::<f64>("C04", spec, sink) else { return };
+    st.configs += 1;
+    tree::<f64, Dyn<f64>>(
+        &root,
+        &alpha,
+        depth,
+        st,
+        &mut |v, hist, st| {
+            let x = *hist.last().unwrap();
+            v.update(x);
+            st.transitions += 1;
+            st.oracle_evals += 1;
+            let got = v.last();
+            st.out(got);
+            // (readiness is C08's matter: nothing is demanded before the view reports)
+            if !matches!(got, None) && !matches!(got, Some(g) if g == x) {
+                sink.push(Violation::new("C04", spec, "ema-recursion", "f64", hist, format!("the weight of the newest value is exactly 1, so e_t = x_t = {:e}, but the view reports {:?}", x, got)).tag("mixed_units"));
+                return Step::Prune;
+            }
+            Step::Go
+        },
+        &mut |hist, msg| sink.push(Violation::new("C04", spec, "panicked", "f64", hist, msg)),
+    );
 }
 
 /// Conditioning of Alma's running weighted sums on a constant stream: once the window has slid,
@@ -397,6 +432,15 @@ pub fn run(ctx: &Ctx) -> CheckOutput {
                 JobOut { stats: st, viols: sink.take(), samples: vec![json!({"explorer":"LONG (sparse oracle)","scalar":"f64","view":spec.name(),"family":label,"steps":len,"judged_steps":at.len(),"drivers":4})] }
             }));
         }
+    }
+    for spec in [Spec::un(Kind::Ema, 1, Spec::echo()), Spec::unp(Kind::EmaAlpha, 3, vec![4.0], Spec::echo()), Spec::unp(Kind::EmaAlpha, 1, vec![2.0], Spec::echo())] {
+        let d = if quick { 5 } else { 7 };
+        jobs.push(Box::new(move || {
+            let mut st = Stats::default();
+            let sink = Sink::new();
+            ema_unit_weight(&spec, d, &mut st, &sink);
+            JobOut { stats: st, viols: sink.take(), samples: vec![json!({"explorer":"TREE","scalar":"f64","view":spec.name(),"alphabet":"0, +-1, +-2^-70, 3*2^-70","depth":d,"clause":"weight 1 => identity, bit for bit"})] }
+        }));
     }
     let o = run_jobs(jobs, ctx.seed);
     CheckOutput {
